@@ -893,6 +893,7 @@ func (self *Pipestance) Lock() error {
 	if self.metadata.exists(Lock) {
 		return &PipestanceLockedError{self.node.top.GetPsid(), self.GetPath()}
 	}
+	verifEvent("LockCheck", "path", self.GetPath())
 	util.RegisterSignalHandler(self)
 	if err := self.metadata.WriteTime(Lock); err != nil {
 		util.LogError(err, "runtime", "Error writing pipestance lock file.")
